@@ -59,6 +59,41 @@ def guards_to_ifelse(stmts, exit_kinds=(ast.Return, ast.Raise)):
     return out
 
 
+def ifelse_to_ifexp(stmts):
+    """`if c: t = a else: t = b` (one assignment to the same target in each branch) -> `t = a if c else b`;
+    a trailing bare `return` in either branch is ignored (tail of a function)."""
+    out = []
+    for st in stmts:
+        if isinstance(st, ast.If) and st.orelse:
+            b = [x for x in ifelse_to_ifexp(st.body) if not (isinstance(x, ast.Return) and x.value is None)]
+            o = [x for x in ifelse_to_ifexp(st.orelse) if not (isinstance(x, ast.Return) and x.value is None)]
+
+            def tv(x):
+                if isinstance(x, ast.Assign) and len(x.targets) == 1:
+                    return x.targets[0], x.value
+                if isinstance(x, ast.AnnAssign) and x.value is not None:
+                    return x.target, x.value
+                return None, None
+            def raise_only(x):
+                return isinstance(x, ast.If) and not x.orelse and all(isinstance(y, ast.Raise) for y in x.body)
+            if all(isinstance(y, ast.Raise) for y in b) and b:
+                # `if c: raise ... else: REST`  ==  the guard `if c: raise ...` followed by REST
+                out.append(ast.copy_location(ast.If(test=st.test, body=b, orelse=[]), st))
+                out += o
+                continue
+            # validation that only raises does not change what is stored on the paths that go on
+            b = [x for x in b if not raise_only(x)]
+            o = [x for x in o if not raise_only(x)]
+            if len(b) == 1 and len(o) == 1:
+                (tb, vb), (to, vo) = tv(b[0]), tv(o[0])
+                if tb is not None and to is not None and ast.unparse(tb) == ast.unparse(to):
+                    new = ast.Assign(targets=[tb], value=ast.IfExp(test=st.test, body=vb, orelse=vo), lineno=st.lineno)
+                    out.append(ast.fix_missing_locations(ast.copy_location(new, st)))
+                    continue
+        out.append(st)
+    return out
+
+
 def normalise_loops(node):
     """`if c: ...; continue` + rest at the tail of a loop body -> if/else (the trailing `continue` is dropped)."""
     for n in ast.walk(node):
@@ -326,12 +361,13 @@ def subst_aliases(fn: ast.FunctionDef):
                 name_stores[x] = name_stores.get(x, 0) + 5
         elif isinstance(n, ast.ExceptHandler) and n.name:
             name_stores[n.name] = name_stores.get(n.name, 0) + 5
-    in_loop = set()
-    for n in ast.walk(fn):
+    in_loop, inner_loop = set(), {}
+    for n in ast.walk(fn):          # breadth first: inner loops are met later and overwrite the entry
         if isinstance(n, (ast.For, ast.While, ast.AsyncFor)):
             for st in n.body + n.orelse:
                 for x in ast.walk(st):
                     in_loop.add(id(x))
+                    inner_loop[id(x)] = n
     aliases = {}     # name -> (value expr, line of the binding)
     cands = []
     loop_bound = {x.id for n in ast.walk(fn) if isinstance(n, (ast.For, ast.While, ast.AsyncFor)) for st in ([n.target] if hasattr(n, 'target') else []) + n.body + n.orelse
@@ -342,7 +378,7 @@ def subst_aliases(fn: ast.FunctionDef):
             tgt, v = n.targets[0], n.value
         elif isinstance(n, ast.AnnAssign) and n.value is not None:
             tgt, v = n.target, n.value
-        if not isinstance(tgt, ast.Name) or id(n) in in_loop or id(n) in nested_ids:
+        if not isinstance(tgt, ast.Name) or id(n) in nested_ids:
             continue
         if tgt.id in params or name_stores.get(tgt.id, 0) != 1:
             continue
@@ -357,7 +393,14 @@ def subst_aliases(fn: ast.FunctionDef):
             if name in aliases:
                 continue
             root = c[0]
-            if root in params:
+            if id(n) in in_loop:
+                # bound afresh in every iteration, right before its uses (which must come later in the text): fine as
+                # long as nothing inside that loop's body rebinds the root (the loop's own target is bound outside it)
+                lp = inner_loop[id(n)]
+                if any(isinstance(x, ast.Name) and x.id == root and isinstance(x.ctx, (ast.Store, ast.Del))
+                       for st in lp.body + lp.orelse for x in ast.walk(st)):
+                    continue
+            elif root in params:
                 if name_stores.get(root, 0) != 0:
                     continue                            # the parameter is rebound somewhere: not a stable alias
             elif root in name_stores:
@@ -414,3 +457,36 @@ def _renumber(fn):
     fresh = ast.parse(text).body[0]
     fn.body, fn.args, fn.decorator_list = fresh.body, fresh.args, fresh.decorator_list
     return fn
+
+
+def resolve(fn: ast.FunctionDef, e):
+    """A named intermediate result: the expression a Name is bound to, when the name is bound exactly once in the
+    function (plain / annotated assignment, not in a loop) and the object is never changed through the name
+    (`name[k] = v`, `del name[k]`, `name.method(...)`, augmented assignment).  Otherwise `e` itself."""
+    seen = 0
+    while isinstance(e, ast.Name) and seen < 4:
+        seen += 1
+        name = e.id
+        binds, bad = [], False
+        loop_ids = {id(x) for n in ast.walk(fn) if isinstance(n, (ast.For, ast.While, ast.AsyncFor))
+                    for st in n.body + n.orelse for x in ast.walk(st)}
+        for n in ast.walk(fn):
+            if isinstance(n, ast.Assign) and len(n.targets) == 1 and isinstance(n.targets[0], ast.Name) and n.targets[0].id == name:
+                binds.append(n)
+            elif isinstance(n, ast.AnnAssign) and n.value is not None and isinstance(n.target, ast.Name) and n.target.id == name:
+                binds.append(n)
+            elif isinstance(n, ast.Name) and n.id == name and isinstance(n.ctx, (ast.Store, ast.Del)):
+                pass
+            elif isinstance(n, ast.AugAssign) and isinstance(n.target, ast.Name) and n.target.id == name:
+                bad = True
+            elif isinstance(n, (ast.Subscript, ast.Attribute)) and isinstance(n.value, ast.Name) and n.value.id == name:
+                if isinstance(n.ctx, (ast.Store, ast.Del)):
+                    bad = True
+            elif isinstance(n, ast.Call) and isinstance(n.func, ast.Attribute) and isinstance(n.func.value, ast.Name) \
+                    and n.func.value.id == name:
+                bad = True
+        stores = sum(1 for n in ast.walk(fn) if isinstance(n, ast.Name) and n.id == name and isinstance(n.ctx, (ast.Store, ast.Del)))
+        if bad or len(binds) != 1 or stores != 1 or id(binds[0]) in loop_ids:
+            return e
+        e = binds[0].value
+    return e
